@@ -217,6 +217,9 @@ def process_pyro_request(environ, path, parameters, start_response):
     if not matches:
         return not_found(start_response)
     object_name, method = matches.groups()
+    if method.startswith("_"):
+        # private names are never remotely accessible; resolving them would reach the proxy's own methods instead
+        return not_found(start_response)
     if pyro_app.gateway_key:
         gateway_key = environ.get("HTTP_X_PYRO_GATEWAY_KEY", "") or parameters.get("$key", "")
         gateway_key = gateway_key.encode("utf-8")
